@@ -21,6 +21,7 @@ def build(notes, extras, tail, mode):
     return s
 
 
+@guarded
 def check(r, notes, extras, tail):
     inp = {"notes": notes, "extras": extras, "tail": tail}
     base = build(notes, extras, tail, "rel")
